@@ -26,15 +26,15 @@ CLAIMED = {
  "C10": ("§6 C10", "Each script (balance()/overdraft()/meta() origins, saves, account variables, two assets) is run against five harness stores (exact, sparse, superset, static, interned) over one symbolic truth table inside a single symbolic path; results are asserted pairwise identical for every table, and the exact store asserts that @world is never requested.",
          "43 (quick) / 51 (thorough) templates incl. scripts that read the balance of @world, a capped @world followed by another source and self-postings; <=4 accounts x 2 assets; stores returning nil maps are outside."),
  "C11": ("§6 C11", "Four harness modes per script, all on symbolic balances: purity (write-confinement monitor over the VM heap + explicit comparison of the variables map and the store's balance/metadata maps), determinism (second run under every iteration order of the maps it ranges over), flags (no flag / gate flag / unknown flag), re-entrancy by reduction (two runs on one ParseResult write only objects they allocated; no package-level variable is written).",
-         "Goroutine interleavings are NOT modelled: re-entrancy is decided by write confinement (disjoint write sets cannot interfere); native replay of a confinement finding runs under the race detector. Per path one ranged map (thorough: two), each in turn, takes every order (maps > 3 entries: identity/reverse/rotation), the others insertion order. sync.Map/Once/Mutex/atomic are modelled sequentially."),
+         "Goroutine interleavings are NOT modelled: re-entrancy is decided by write confinement (disjoint write sets cannot interfere); native replay of a confinement finding runs under the race detector. Per path one ranged map (thorough: two), each in turn, takes every order (maps > 3 entries: identity/reverse/rotation), the others insertion order. sync.Map/Once/Mutex/Pool/atomic are modelled sequentially. A fifth mode runs the same script before and after a run of another script (independence of process history)."),
  "C12": ("§6 C12", "Every reachable Go panic site on every explored path is a violation (API template families, arbitrary variable bytes per declared type through the symbolic regexp/SetString models, one trigger per error class, store failure injected at every call, nil store maps); errors must carry the class naming the cause and come with the zero result.",
          "Variable texts <= 3 (quick) / 5 (thorough) arbitrary bytes; script families as C01/C03/C05/C08/C10."),
- "C13": ("§6 C13", "ParsePercentageRatio / parsePercentageRatio / parseRatio and ParsePortionSpecific executed symbolically on token texts of a fixed layout with EVERY digit symbolic: the result equals digits/10^(f+2) resp. N/D in base ten (cross-multiplied), variables agree with literals and are rejected exactly outside [0,1]; metadata round trip through two real scripts for all integers (numbers, monetaries), symbolic-byte assets and strings, accounts and a grid of portions, incl. MarshalJSON = quoted text.",
+ "C13": ("§6 C13", "ParsePercentageRatio / parsePercentageRatio / parseRatio and ParsePortionSpecific executed symbolically on token texts of a fixed layout with EVERY digit symbolic: the result equals digits/10^(f+2) resp. N/D in base ten (cross-multiplied), variables agree with literals and are rejected exactly outside [0,1]; metadata round trip through two real scripts for all integers (numbers, monetaries), symbolic-byte assets and strings, accounts and a grid of portions, incl. the JSON form of transaction metadata: valid JSON that decodes to the stored text (monetaries whose asset contains a quote, a backslash, &<> or non-ASCII included).",
          "Digit counts bounded (quick 3+3, thorough 22); ratio-variable denominators concrete per case; portion round trips on concrete texts."),
  "C14": ("§6 C14", "SCOPED to the kernels that can be encoded: parseNumberLiteral (real strconv.Atoi from SSA), parsePercentageRatio, parseRatio on token texts with every digit symbolic; ErrorListener.SyntaxError on tokens with symbolic UTF-8 text at symbolic positions; ParseErrorsToString/ShowOnSource on small sources with the error anywhere or at <EOF>. Every reachable panic site is a violation; error ranges start at the reported position and do not end before it.",
-         "The ANTLR lexer/parser itself (termination, acceptance, rejection) is OUTSIDE the encoding: this check does not decide 'every input string'. Token stubs follow the stated ANTLR contract."),
+         "The ANTLR lexer/parser itself (termination, acceptance, rejection) is OUTSIDE the encoding: this check does not decide 'every input string'. Token stubs follow the stated ANTLR contract. By-product (direct execution, no solver verdict over texts): the real parser on a corpus of ~1000 valid, invalid and edited texts (non-ASCII, truncated after a newline, strings ending in a backslash, illegal characters) with rendering of every reported error."),
  "C15": ("§6 C15", "SCOPED to range arithmetic: tokenToRange and ctxToRange on tokens whose text is any valid UTF-8 of the layout (symbolic bytes) at symbolic positions span exactly the character count, children lie within parents and siblings do not overlap; Position.GtEq is the lexicographic total order and Range.Contains the closed interval, for all positions.",
-         "Tree structure, literal values, associativity and layout/comment invariance depend on the ANTLR parse and are OUTSIDE."),
+         "Tree structure, literal values, associativity and layout/comment invariance depend on the ANTLR parse and are OUTSIDE the solver verdict; they are covered as a by-product by running the real parser on 26 generated scripts (expected tree built alongside the text) in 4-8 layouts each, one of them with block comments glued between all tokens. Known finding: a comment glued to an asset / number / ratio token changes the parse."),
  "C16": ("§6 C16", "analysis.CheckProgram executed in the VM on parser-produced trees: 13 statically valid templates get no error (literal portion numerators symbolic: accepted exactly when they sum to one); for name templates every declaration and every use takes every name of a pool (all deletions, duplications, renamings): unbound / duplicate / unused variables are reported exactly once at their token and nothing else is.",
          "Template lists are finite; names and types are finite choices concretised by forking; numerators are unbounded. 20 two-step sequences check that a valid script gets the same diagnostics after another text was analysed in the same process."),
  "C17": ("§6 C17", "CheckProgram then RunProgram inside one symbolic path for valid templates with up to one (thorough: two) mis-declared variable types over all six types, and 65 type-breaking edits (incl. self-referencing origins, misplaced remaining clauses, defects in sources listed after an unbounded one); whenever the checker reports no error the run (all integers as numbers/amounts, symbolic balances) does not fail with TypeError, UnboundVariable, UnboundFunction, BadArity or InvalidType; with no diagnostics at all, not with a send-all shape error either.",
